@@ -305,3 +305,21 @@ Section FullRows.
     Forall2 same (cached_run (init ks) Ls) (map answers Ls).
   Proof. apply cached_run_transparent, good_init. Qed.
 End FullRows.
+
+(* ---- histories in which some retrievals are reduced to their most general rows (what a cached operator replays): run by the
+   correspondence check of C20 against BinaryOperator._most_general_(cache.retrieve(lookup)) ---- *)
+Fixpoint run_mg (s : both) (ops : list (op * bool)) : list (string * string) :=
+  match ops with
+  | [] => []
+  | (ORet a, true) :: ops' =>
+      (show_res (most_general (ic_retrieve (impl s) a)), show_res (most_general (spec_retrieve (keys (impl s)) (spec s) a)))
+      :: run_mg s ops'
+  | (o, _) :: ops' => let '(s', obs) := step s o in
+                      match obs with Some x => x :: run_mg s' ops' | None => run_mg s' ops' end
+  end.
+
+Open Scope string_scope.
+Definition run_case_mg (n : nat) (ks : list key) (ops : list (op * bool)) : string :=
+  let r := run_mg {| impl := ic_new ks; spec := []; spec_seen := [] |} ops in
+  "CASE " ++ show_nat n ++ " H " ++ show_bool (forallb (fun ob => op_ok ks (fst ob)) ops) ++ " M " ++ String.concat " " (map fst r) ++ " S " ++ String.concat " " (map snd r).
+Close Scope string_scope.
